@@ -96,33 +96,34 @@ Qed.
 
 (** ---- the segment theorem at specification level *)
 Section Segment.
-Variables low size high : N.
+Variables low size high stop : N.
 Hypothesis Hlow : low mod 30 = 0.
-Hypothesis Hhigh : low + 30 * size + 1 <= high.
 (** the sieving primes with their first cofactor in this segment *)
 Variable sps : list (N * N).
 Hypothesis sps_ok : forall p q0, In (p, q0) sps ->
   prime p /\ 7 <= p /\ coprime30 q0 /\ p <= q0 /\
   (forall q, p <= q -> coprime30 q -> low + 7 <= p * q -> q0 <= q).
-Hypothesis sps_complete : forall p, prime p -> 7 <= p -> p * p <= high -> exists q0, In (p, q0) sps.
+(** every prime that may be needed is a sieving prime, unless none of its multiples p*q (q >= p coprime to 30)
+    from this segment on lies below stop (then addSievingPrime did not store it) *)
+Hypothesis sps_complete : forall p, prime p -> 7 <= p -> p * p <= high ->
+  (exists q0, In (p, q0) sps) \/ (forall q, p <= q -> coprime30 q -> low + 7 <= p * q -> stop < p * q).
 
 Definition in_segment (n : N) : Prop := coprime30 n /\ low + 7 <= n /\ byteof low n < size.
 Definition crossed (n : N) : Prop :=
   exists p q0 q, In (p, q0) sps /\ q0 <= q /\ coprime30 q /\ n = p * q.
 
-Theorem segment_spec n : in_segment n -> 7 <= n -> (~ crossed n <-> prime n).
+Theorem segment_spec n : in_segment n -> 7 <= n -> n <= high -> n <= stop -> (~ crossed n <-> prime n).
 Proof.
-  intros (Hc & Hn & Hb) H7. split.
+  intros (Hc & Hn & Hb) H7 Hnh Hns. split.
   - (* not crossed -> prime *)
     intros Hnc. destruct (prime_dec_N n) as [Hp|Hnp]; [exact Hp|exfalso]. apply Hnc.
     destruct (composite_factor n ltac:(lia) Hnp) as (p & q & Hp & E & Hsq & Hpq).
     assert (Hcp : coprime30 p /\ coprime30 q) by (apply coprime30_mul; rewrite <- E; exact Hc).
     pose proof (prime_ge_2 p Hp) as Hp2. pose proof (coprime30_ge7 p (proj1 Hcp) Hp2) as Hp7.
-    assert (Hnh : n <= high).
-    { pose proof (position n low Hlow Hc Hn) as P. destruct (offb_range n Hc) as [Ho _]. lia. }
-    destruct (sps_complete p Hp Hp7 ltac:(lia)) as (q0 & Hin).
-    destruct (sps_ok p q0 Hin) as (_ & _ & _ & _ & Hmin).
-    exists p, q0, q. split; [exact Hin|]. split; [apply Hmin; [exact Hpq|exact (proj2 Hcp)|lia]|]. split; [exact (proj2 Hcp)|exact E].
+    destruct (sps_complete p Hp Hp7 ltac:(lia)) as [(q0 & Hin)|Hdead].
+    + destruct (sps_ok p q0 Hin) as (_ & _ & _ & _ & Hmin).
+      exists p, q0, q. split; [exact Hin|]. split; [apply Hmin; [exact Hpq|exact (proj2 Hcp)|lia]|]. split; [exact (proj2 Hcp)|exact E].
+    + exfalso. specialize (Hdead q Hpq (proj2 Hcp) ltac:(lia)). lia.
   - (* prime -> not crossed *)
     intros Hp (p & q0 & q & Hin & Hq & Hcq & E).
     destruct (sps_ok p q0 Hin) as (Hpp & Hp7 & _ & Hpq0 & _).
@@ -246,15 +247,16 @@ Qed.
 
 (** the kernel theorem for one segment: after crossing off with every prime 7 <= p, p*p <= high as a sieving
     prime in a correct, minimal state, the bit of a number of the segment is still set iff the number is prime *)
-Theorem kernel_segment fuel low size high (ws : list wstate) cleared sts' :
-  low mod 30 = 0 -> low + 30 * size + 1 <= high ->
+Theorem kernel_segment fuel low size high stop (ws : list wstate) cleared sts' :
+  low mod 30 = 0 ->
   Forall (w_ok low) ws ->
-  (forall p, prime p -> 7 <= p -> p * p <= high -> In p (map w_prime ws)) ->
+  (forall p, prime p -> 7 <= p -> p * p <= high ->
+     In p (map w_prime ws) \/ (forall q, p <= q -> coprime30 q -> low + 7 <= p * q -> stop < p * q)) ->
   cross_all fuel steps size (map w_state ws) = Some (cleared, sts') ->
-  forall n, coprime30 n -> low + 7 <= n -> byteof low n < size -> 7 <= n ->
+  forall n, coprime30 n -> low + 7 <= n -> byteof low n < size -> 7 <= n -> n <= high -> n <= stop ->
   (~ In (byteof low n, maskof n) cleared <-> prime n).
 Proof.
-  intros Hl Hh Hok Hcomplete H n Hc Hn Hb H7.
+  intros Hl Hok Hcomplete H n Hc Hn Hb H7 Hnh Hns.
   destruct (cross_all_spec fuel low size Hl ws cleared sts' Hok H) as (Hmem & _).
   set (sps := map (fun x => (w_prime x, w_q x)) ws).
   assert (sps_ok : forall p q0, In (p, q0) sps -> prime p /\ 7 <= p /\ coprime30 q0 /\ p <= q0 /\
@@ -263,10 +265,12 @@ Proof.
     destruct x as [[[[sp ri] qi] q] i]. cbn [w_prime w_q] in E. injection E as <- <-. cbn [w_ok] in Hok.
     destruct Hok as (HI & Hpr & Hp7 & Hpq & Hmin).
     split; [exact Hpr|split; [exact Hp7|split; [exact (inv_coprime _ _ _ _ _ _ HI)|split; [exact Hpq|exact Hmin]]]]. }
-  assert (sps_complete : forall p, prime p -> 7 <= p -> p * p <= high -> exists q0, In (p, q0) sps).
-  { intros p Hp Hp7 Hsq. specialize (Hcomplete p Hp Hp7 Hsq). apply in_map_iff in Hcomplete. destruct Hcomplete as (x & E & Hx).
+  assert (sps_complete : forall p, prime p -> 7 <= p -> p * p <= high ->
+            (exists q0, In (p, q0) sps) \/ (forall q, p <= q -> coprime30 q -> low + 7 <= p * q -> stop < p * q)).
+  { intros p Hp Hp7 Hsq. destruct (Hcomplete p Hp Hp7 Hsq) as [Hin|Hdead]; [left|right; exact Hdead].
+    apply in_map_iff in Hin. destruct Hin as (x & E & Hx).
     exists (w_q x). apply in_map_iff. exists x. split; [rewrite E; reflexivity|exact Hx]. }
-  rewrite <- (segment_spec low size high Hl Hh sps sps_ok sps_complete n (conj Hc (conj Hn Hb)) H7).
+  rewrite <- (segment_spec low size high stop Hl sps sps_ok sps_complete n (conj Hc (conj Hn Hb)) H7 Hnh Hns).
   assert (Hiff : In (byteof low n, maskof n) cleared <-> crossed sps n).
   { rewrite Hmem. split.
     - intros (x & q' & Hx & A & C & Hb' & D1 & D2). exists (w_prime x), (w_q x), q'.
